@@ -730,8 +730,8 @@ class Matrix(object):
                     return v[-1]  # if v is shorter than ind, repeat last as necessary
                 return v[ix]
             elif isinstance(v, Matrix):
-                if ix >= count:
-                    return v[0, -1]
+                if ix >= v.columns:
+                    return v[0, -1]  # if v is shorter than ind, repeat last as necessary
                 return v[0, ix]
 
         for v_ix, mat_ix in enumerate(ind):
